@@ -328,6 +328,67 @@ let run_c08 toks =
     [Printf.sprintf "seek=%s stream=%s bnd=%s footer=%s" c1 c2 c3 c4]
   | _ -> failwith "bad c08 aux"
 
+(* ------------------------------------------------------------------------- dedup pipeline (L1) *)
+let hash_of_id (id : int) : n list =
+  List.init 32 (fun j -> if j < 8 then byte_tab.((id lsr (8 * j)) land 255) else byte_tab.((id * 31 + j * 17) mod 251))
+let parse_id_chunks s = if s = "-" then [] else
+    List.map (fun c -> match String.split_on_char ':' c with
+        | [i; l] -> (hash_of_id (int_of_string i), n_of_string l) | _ -> failwith "bad chunk") (String.split_on_char ',' s)
+let fmt_metrics (m : metrics) =
+  Printf.sprintf "tb=%s db=%s nb=%s gb=%s fb=%s tc=%s dc=%s nc=%s gc=%s fc=%s" (dec_n m.m_total_bytes) (dec_n m.m_deduped_bytes) (dec_n m.m_new_bytes)
+    (dec_n m.m_global_bytes) (dec_n m.m_defrag_bytes) (dec_n m.m_total_chunks) (dec_n m.m_deduped_chunks) (dec_n m.m_new_chunks) (dec_n m.m_global_chunks) (dec_n m.m_defrag_chunks)
+let n_sub a b = N.sub a b
+let m_sub (a : metrics) (b : metrics) : metrics =
+  { m_total_bytes = n_sub a.m_total_bytes b.m_total_bytes; m_deduped_bytes = n_sub a.m_deduped_bytes b.m_deduped_bytes; m_new_bytes = n_sub a.m_new_bytes b.m_new_bytes;
+    m_global_bytes = n_sub a.m_global_bytes b.m_global_bytes; m_defrag_bytes = n_sub a.m_defrag_bytes b.m_defrag_bytes;
+    m_total_chunks = n_sub a.m_total_chunks b.m_total_chunks; m_deduped_chunks = n_sub a.m_deduped_chunks b.m_deduped_chunks; m_new_chunks = n_sub a.m_new_chunks b.m_new_chunks;
+    m_global_chunks = n_sub a.m_global_chunks b.m_global_chunks; m_defrag_chunks = n_sub a.m_defrag_chunks b.m_defrag_chunks }
+let short h = String.sub (hex_of_bytes h) 0 16
+let fmt_segs (segs : seg list) =
+  String.concat "," (List.map (fun s -> Printf.sprintf "%s:%s:%s:%s" (short s.sg_cas) (dec_n s.sg_bytes) (dec_n s.sg_start) (dec_n s.sg_end)) segs)
+
+let run_dd toks =
+  let ops = split_ops toks in
+  let cf = ref None and ext = ref [] and f = ref fd0 and nf = ref 0 and aggs = ref [] and out = ref [] in
+  let emit s = out := s :: !out in
+  List.iter (fun op -> match op with
+      | ["cfg"; nr; mb; mc] ->
+        cf := Some { c_nranges = n_of_string nr; c_min_cpr_num = mIN_N_CHUNKS_PER_RANGE_NUM; c_min_cpr_den = mIN_N_CHUNKS_PER_RANGE_DEN;
+                     c_hyst_num = mIN_N_CHUNKS_PER_RANGE_HYSTERESIS_FACTOR_NUM; c_hyst_den = mIN_N_CHUNKS_PER_RANGE_HYSTERESIS_FACTOR_DEN;
+                     c_max_xorb_bytes = n_of_string mb; c_max_xorb_chunks = n_of_string mc }
+      | ["X"; id; cap; chs] -> ext := !ext @ [((hash_of_id (int_of_string id), parse_id_chunks chs), n_of_string cap)]
+      | ["B"; chs] ->
+        let cfg = (match !cf with Some c -> c | None -> failwith "no cfg") in
+        let before = !f.f_metrics in
+        f := process_block dedup_booked_before_decision cfg !ext !f (parse_id_chunks chs);
+        emit ("B " ^ fmt_metrics (m_sub !f.f_metrics before))
+      | ["F"; salt; sha] ->
+        let sha = if sha = "-" then None else Some (bytes_of_hex sha) in
+        let (((fh, agg), m), newx) = fd_finalize !f (bytes_of_hex salt) sha in
+        let (fi, iref) = (match agg.a_files with [x] -> x | _ -> failwith "agg files") in
+        let regs = List.rev_map (fun (x : cas_info) -> Printf.sprintf "%s:%d:%s" (short x.ci_hash) (List.length x.ci_chunks) (dec_n x.ci_nbytes)) !f.f_registered in
+        emit (Printf.sprintf "F%d hash=%s %s segs=[%s] iref=[%s] aggchunks=%d newxorbs=%d regs=[%s]" !nf (disp fh) (fmt_metrics m) (fmt_segs fi.fi_segs)
+                (String.concat ", " (List.map dec_n iref)) (List.length agg.a_chunks) (List.length newx) (String.concat "," regs));
+        emit (Printf.sprintf "F%d verif=[%s] flags=%s" !nf (String.concat "," (List.map short fi.fi_verif)) (dec_n fi.fi_flags));
+        aggs := !aggs @ [agg];
+        (* the registered xorbs stay visible to later files of the same interface *)
+        f := { fd0 with f_registered = !f.f_registered };
+        incr nf
+      | ["AGG"] ->
+        let cfg = (match !cf with Some c -> c | None -> failwith "no cfg") in
+        let bytes_of (a : agg) = List.fold_left (fun acc (_, l) -> N.add acc l) N0 a.a_chunks in
+        let groups = List.fold_left (fun gs b -> match gs with
+            | a :: rest when N.leb (N.add (bytes_of a) (bytes_of b)) cfg.c_max_xorb_bytes
+                          && N.leb (n_of_int (List.length a.a_chunks + List.length b.a_chunks)) cfg.c_max_xorb_chunks -> agg_merge a b :: rest
+            | _ -> b :: gs) [] !aggs in
+        aggs := [];
+        List.iter (fun a ->
+            let (x, infos) = agg_finalize a in
+            emit (Printf.sprintf "AGG xorb=%s:%d:%s files=%s" (short x.ci_hash) (List.length x.ci_chunks) (dec_n x.ci_nbytes)
+                    (String.concat "" (List.map (fun (fi : file_info) -> "[" ^ fmt_segs fi.fi_segs ^ "]") infos)))) (List.rev groups)
+      | _ -> ()) ops;
+  List.rev !out
+
 let run_c04 toks =
   match toks with
   | target :: rest ->
@@ -360,6 +421,7 @@ let () =
              | "c05" -> run_c05 toks
              | "c10" -> run_c10 toks
              | "c18" -> run_c18 toks
+             | "dd" -> run_dd toks
              | "c07" -> run_c07 toks
              | "bg4" -> run_bg4 toks
              | "c08" -> run_c08 toks
